@@ -13,6 +13,8 @@
 import Golib.Gen.C13
 import Golib.Lists.Typed
 import Golib.Lists.Sort
+import Golib.Gen.Locks
+import Golib.Conc.LockFacts
 
 namespace C13Gen
 open Lists
@@ -194,5 +196,47 @@ theorem dispatch_is_model_compareChild {β : Type} (cle : β → β → Bool) (c
 
 example : childDispatch 2 false (fun f g a b => if f = "CompareToLong" ∧ g = "GetLong" then (a : Int) - b else 99) 3 5 = 2 := by
   decide
+
+/-! ### LinkedList: every public mutator runs under the list's lock
+
+  Facts regenerated from util/list/LinkedList.go by `xlate/c10` (C10's translator, run by this
+  check too): a method is `atomicOrDelegates` when it takes `o.lock` as its first statement, releases
+  it by `defer`, touches no shared field outside the lock — or touches nothing itself and only
+  delegates to one method that does.  This is what makes the code an instance of the mutex-object
+  machine of `Lists.Linked.locked_conservation`.  One obligation per method, so that a failure
+  names the method. -/
+
+open LockFacts Gen.Locks in
+theorem linkedlist_Add_locked : atomicOrDelegates LinkedList.facts "Add" = true := by decide
+open LockFacts Gen.Locks in
+theorem linkedlist_AddFirst_locked : atomicOrDelegates LinkedList.facts "AddFirst" = true := by decide
+open LockFacts Gen.Locks in
+theorem linkedlist_AddLast_locked : atomicOrDelegates LinkedList.facts "AddLast" = true := by decide
+open LockFacts Gen.Locks in
+theorem linkedlist_PutBefore_locked : atomicOrDelegates LinkedList.facts "PutBefore" = true := by decide
+open LockFacts Gen.Locks in
+theorem linkedlist_Remove_locked : atomicOrDelegates LinkedList.facts "Remove" = true := by decide
+open LockFacts Gen.Locks in
+theorem linkedlist_RemoveFirst_locked : atomicOrDelegates LinkedList.facts "RemoveFirst" = true := by decide
+open LockFacts Gen.Locks in
+theorem linkedlist_RemoveLast_locked : atomicOrDelegates LinkedList.facts "RemoveLast" = true := by decide
+open LockFacts Gen.Locks in
+theorem linkedlist_Clear_locked : atomicOrDelegates LinkedList.facts "Clear" = true := by decide
+
+open LockFacts Gen.Locks in
+theorem linkedlist_ToArray_locked : atomicOrDelegates LinkedList.facts "ToArray" = true := by decide
+
+open LockFacts Gen.Locks in
+/-- … and these are ALL the exported methods that (transitively) write anything (ToArray writes only
+    the slice it returns): a new public mutator changes this list and needs its own obligation -/
+theorem linkedlist_mutators_listed :
+    ((LinkedList.facts.methods.filter
+        (fun M => M.exported && mutatesWithin LinkedList.facts LinkedList.facts.fuel M.name)).map (·.name)) =
+      ["Add", "AddFirst", "AddLast", "Clear", "PutBefore", "Remove", "RemoveFirst", "RemoveLast", "ToArray"] := by
+  decide
+
+open LockFacts Gen.Locks in
+/-- the lock is released on every path (Lock first, `defer Unlock`), and no method re-enters it -/
+theorem linkedlist_lock_pattern : noSelfDeadlock LinkedList.facts = true := by decide
 
 end C13Gen
